@@ -11,6 +11,7 @@ EXTENDS DWT1Laws, Json
 CONSTANTS NSet, LSet, ModeSet,
           Shard, NShards,        \* this JVM handles cfgs with (N mod NShards) = Shard
           Emit,                  \* print replay records
+          EmitGrad,              \* ... including the backward operators (C05)
           GradFix,               \* TRUE: model of the tree after the "fix:" of the backward passes
           PRMaxN, PRMaxL         \* bounds for the (more expensive) pair-operator laws
 
@@ -131,6 +132,20 @@ Record ==
          s_ref |-> IF sf THEN Entries3(rS) ELSE {},
          s_same |-> (~sf \/ Same3(iS, rS)),
          s_impl |-> IF ~sf \/ Same3(iS, rS) THEN {} ELSE Entries3(iS),
-         s_impl_len |-> IF sf THEN iS.no ELSE 0]
+         s_impl_len |-> IF sf THEN iS.no ELSE 0,
+         \* the hand-written backward passes as the code performs them (C05): entries are given only
+         \* where they differ from the transpose of the forward model
+         ab_same |-> (~EmitGrad \/ raises \/ Same3(ImplABackward(m, N, L, BMode(m)), Transpose3(iA))),
+         ab_impl |-> IF ~EmitGrad \/ raises \/ Same3(ImplABackward(m, N, L, BMode(m)), Transpose3(iA)) THEN {}
+                     ELSE Entries3(ImplABackward(m, N, L, BMode(m))),
+         sb_raises |-> (EmitGrad /\ sf /\ ImplARaises(BMode(m), ImplSLen(m, N, L), L)),
+         sb_same |-> (~EmitGrad \/ ~sf \/ ImplARaises(BMode(m), ImplSLen(m, N, L), L)
+                          \/ Same3(ImplSBackward(m, N, L, BMode(m)), Transpose3(iS))),
+         sb_impl |-> IF ~EmitGrad \/ ~sf \/ ImplARaises(BMode(m), ImplSLen(m, N, L), L)
+                        \/ Same3(ImplSBackward(m, N, L, BMode(m)), Transpose3(iS)) THEN {}
+                     ELSE Entries3(ImplSBackward(m, N, L, BMode(m))),
+         sb_impl_len |-> IF EmitGrad /\ sf /\ ~ImplARaises(BMode(m), ImplSLen(m, N, L), L)
+                         THEN ImplSBackward(m, N, L, BMode(m)).no ELSE 0]
+\* EmitGrad selects the (larger) records that also carry the backward operators
 EmitOK == (Picked /\ Emit) => PrintT(<<"@@REC", ToJson(Record)>>)
 =============================================================================
